@@ -13,6 +13,7 @@
 -/
 import Sky.C32.Sim
 import Sky.Gen.C32Facts
+import Sky.C32.ErrChan
 namespace Sky.Props.C32
 open Sky.C32 Sky.Gen.C32Facts
 
@@ -181,6 +182,17 @@ theorem no_unstranded_entries : unstrandedEntries = [] := by decide
 
 /-- Strand's two select loops, processStrand's loop and Shutdown's order are the ones the model describes -/
 theorem code_shapes_match_model : shutdownOrderOK = true ∧ processStrandOK = true ∧ strandSelectsOK = true := by decide
+
+/-- handleConnection's error channel has room for one report from each of its goroutines, each of which reports at
+most once, and handleConnection receives at most once (regenerated) -/
+theorem errChan_facts : errProducers ≤ errChanCap ∧ errSendOnce = true := by decide
+
+/-- hence no goroutine of a connection ever blocks reporting its error — whichever branch of handleConnection's
+select is taken, in particular when `quit` fires and nothing is received — so `wg.Wait()` in handleConnection
+returns, `Run` can close `done` and `Shutdown` returns (Sky.C32.ErrChan) -/
+theorem connection_goroutines_finish {s : ErrChan.St} (h : ErrChan.Reach errChanCap errProducers s) :
+    (0 < s.live → s.buffered < errChanCap) ∧ ∃ s', ErrChan.Reach errChanCap errProducers s' ∧ s'.live = 0 :=
+  ⟨ErrChan.report_never_blocks errChan_facts.1 h, ErrChan.all_finish errChan_facts.1 h⟩
 
 /-! ### non-vacuity: a concrete run of the model, accepted by the monitor; and traces it rejects -/
 
